@@ -113,3 +113,11 @@ def check(ctx) -> None:
         if isinstance(ks.value, ast.Constant) and ks.value.value == "input-balanced" and ks.func.qualname.startswith("synrbl."):
             ctx.instance("C04-G3", "literal store of 'input-balanced' in %s" % ks.func.qualname, ks.where(), ok=False)
             ctx.finding("C04-G3", "%s:literal-input-balanced" % ks.func.qualname.split("synrbl.", 1)[-1], ks.where(), "'input-balanced' is written outside the input validator")
+    # G4: a balanced reaction can only be recognised if the carbon label counts every component (shared with C07-E6)
+    from . import c07
+
+    c07.rule_e6(ctx, "C04-G4")
+    # G5: results are written back to the row they were computed for (shared with C06-B2)
+    from . import c06
+
+    c06.rule_b2(ctx, pl, "C04-G5")
